@@ -1349,17 +1349,29 @@ def _images_part(tree, out, spans):
         raise Unsupported('iter_tiled_full_frame_data: channels: ' + ' | '.join(_src(c.value) for c in ch))
     spans += ch
     loop = _one((n for n in fn.body if isinstance(n, ast.For)), 'iter_tiled_full_frame_data: outer loop')
-    nest = []
-    if not (_src(loop.target) == 'channel' and _src(loop.iter) == 'channels' and len(loop.body) == 1 and isinstance(loop.body[0], ast.For)):
-        raise Unsupported('iter_tiled_full_frame_data: outer loop is not `for channel in channels`')
-    nest.append('channel')
-    l2 = loop.body[0]
-    if not (_src(l2.target) == 'slice_index' and _src(l2.iter) == 'range(1, num_focal_planes + 1)' and len(l2.body) == 2):
-        raise Unsupported('iter_tiled_full_frame_data: second loop is not `for slice_index in range(1, num_focal_planes + 1)`')
-    nest.append('slice_index')
-    zo, l3 = l2.body
-    if not (isinstance(zo, ast.Assign) and ast.unparse(zo.targets[0]) == 'z_offset'):
-        raise Unsupported('iter_tiled_full_frame_data: z_offset')
+    # the two outer loops may come in either order (the order is EMITTED: frames are numbered by it); z_offset is assigned once,
+    # inside the loop over the focal planes
+    heads = {'channel': 'channels', 'slice_index': 'range(1, num_focal_planes + 1)'}
+    nest, zo, cur, in_slice = [], None, loop, False
+    for depth in range(2):
+        tgt = _src(cur.target)
+        if tgt not in heads or _src(cur.iter) != heads[tgt] or tgt in nest:
+            raise Unsupported(f'iter_tiled_full_frame_data: loop {depth + 1} is `for {tgt} in {_src(cur.iter)}`')
+        nest.append(tgt)
+        in_slice = in_slice or tgt == 'slice_index'
+        inner = [x for x in cur.body if isinstance(x, ast.For)]
+        rest = [x for x in cur.body if not isinstance(x, ast.For)]
+        if len(inner) != 1:
+            raise Unsupported(f'iter_tiled_full_frame_data: loop {depth + 1} does not contain exactly one loop')
+        for x in rest:
+            if not (isinstance(x, ast.Assign) and ast.unparse(x.targets[0]) == 'z_offset' and zo is None and in_slice
+                    and cur.body.index(x) < cur.body.index(inner[0])):
+                raise Unsupported(f'iter_tiled_full_frame_data: unexpected statement in loop {depth + 1}: {_src(x)[:80]}')
+            zo = x
+        cur = inner[0]
+    l3 = cur
+    if zo is None:
+        raise Unsupported('iter_tiled_full_frame_data: z_offset is not assigned inside the loops')
     out.append(_scalar_def2(zo.value, 'focalPlaneZ', [('z_origin', 'rat'), ('slice_index', 'int'), ('spacing_between_slices', 'rat')],
                           'iter_tiled_full_frame_data: z of the 1-based focal plane `slice_index`'))
     if not (isinstance(l3, ast.For) and _src(l3.target) == '(offsets, coords)'):
